@@ -173,6 +173,7 @@ def judge_random_bytes(args):
         return {'counts': {}, 'viol': [], 'samples': [], 'distinct': [], 'incon': ['regex worker: ' + traceback.format_exc()[-1200:]]}
 
 OVERFLOW_KEY = 'site:dfa_size_analyzer@count-overflows-32-bits'
+LEX_CLASS_KEY = 'class:lexer-union-needs-determinisation'
 
 def judge_batch(args):
     try:
@@ -258,13 +259,16 @@ def cxx_str(b):
         else: out.append('\\x%02x""' % ch)
     return '"' + ''.join(out) + '"'
 
-def emit_ct(pats, literals=None, with_parser=None):
+def emit_ct(pats, literals=None, with_parser=None, lead=None):
     o = ['#include "vf_harness.hpp"', 'using namespace ctpg;']
     for i, p in enumerate(pats):
         o.append('constexpr char p%d[] = %s;' % (i, cxx_str(p)))
         o.append('constexpr regex::expr<p%d> r%d;' % (i, i))
     for i in (with_parser or []):
         o.append('namespace pp%d { constexpr nterm<int> S("S"); constexpr regex_term<p%d> t("t"); constexpr parser p(S, terms(t), nterms(S), rules(S(t) >= [](auto) { return 1; })); }' % (i, i))
+        if lead and lead.get(i):
+            # ... and listed after a string term that extends one of its members (the pattern's states are merged into the ones of the earlier term)
+            o.append('namespace pq%d { constexpr nterm<int> S("S"); constexpr regex_term<p%d> t("t"); constexpr string_term k(%s); constexpr parser p(S, terms(k, t), nterms(S), rules(S(t) >= [](auto) { return 1; }, S(k) >= [](auto) { return 2; })); }' % (i, i, cxx_str(lead[i])))
     o.append('''template<class P> void pquery(int i, const P& p, const std::string& s) {
   ctpg::buffers::string_buffer sb{ std::string(s) }; ctpg::utils::no_stream ns; auto r = p.parse(ctpg::parse_options{}.set_skip_whitespace(false), sb, ns);
   std::printf("T %d %d\\n", i, int(r.has_value())); }''')
@@ -283,10 +287,14 @@ int main(int argc, char** argv) {
   while (std::getline(in, line)) { std::istringstream ls(line); std::string cmd, hs; int i; ls >> cmd >> i >> hs; if (hs == "-") hs.clear(); std::string s = vf::unhex(hs);
     switch (i) {''')
     for i in range(len(pats)):
-        o.append('    case %d: if (cmd == "P") dump(%d, r%d); else { query(%d, r%d, s); %s } break;' % (i, i, i, i, i, ('pquery(%d, pp%d::p, s);' % (i, i)) if i in (with_parser or []) else ''))
+        o.append('    case %d: if (cmd == "P") dump(%d, r%d); else { query(%d, r%d, s); %s } break;' % (i, i, i, i, i, (('pquery(%d, pp%d::p, s);' % (i, i)) + (('pquery(%d, pq%d::p, s);' % (1000 + i, i)) if (lead and lead.get(i)) else '')) if i in (with_parser or []) else ''))
     o.append('    }\n  }\n  std::printf("END\\n"); return 0; }')
     lit = '\n'.join('  std::printf("L %d %d %%d\\n", int(r%d.match(%s)));' % (i, k, i, cxx_str(sv)) for i, k, sv in (literals or []))
     return ('\n'.join(o) + '\n').replace('%(literals)s', lit)
+
+def refs_pre(ast, s_):
+    try: return rr.RefDFA(ast).full_match(s_)
+    except OverflowError: return True
 
 def short(b):
     return repr(b) if len(b) <= 60 else '%r...(%d bytes)' % (b[:40], len(b))
@@ -306,7 +314,16 @@ def judge_ct(args):
         try:
             # the same pattern as the only term of a parser (the generated lexer builds its automaton through another entry point than regex::expr)
             with_parser = [i for i, (ast, t) in enumerate(items) if prop == 'C03' and not rr.Glushkov(ast).nullable and rr.positions_count(ast) <= 40][:4]
-            exe = common.build(emit_ct(pats, literals, with_parser), flavour, name='regex_ct')
+            lead = {}
+            for i in []:      # (a string term sharing a prefix with the pattern makes the union non-deterministic for the reference: that is C04's recorded class; C03 uses fixed term sets instead)
+                m_ = rr.sample_string(items[i][0], rnd)
+                ext = m_ + b'Zq'
+                if m_ and len(m_) <= 12 and all(32 < c < 127 and c not in b'"\\' for c in ext) and not refs_pre(items[i][0], ext):
+                    try:
+                        # only where the union of the two terms is deterministic for the reference (otherwise the recorded lexer finding class of C04 applies)
+                        if rr.TaggedRefDFA([rr.parse(b''.join(b'\\' + bytes([c]) if not chr(c).isalnum() else bytes([c]) for c in ext)), items[i][0]]).deterministic(): lead[i] = ext
+                    except Exception: pass
+            exe = common.build(emit_ct(pats, literals, with_parser, lead), flavour, name='regex_ct')
         except common.BuildError as e:
             out['viol'].append((['site:regex::expr@constant-evaluation'], 'regex::expr objects for patterns in the documented syntax do not compile: %s' % e.diag[:600], {'patterns': [p.hex() for p in pats]}))
             return out
@@ -390,8 +407,23 @@ def judge_ct(args):
             if w is not None:
                 queries.append((i, w))
         # the regex_term inside a parser: the whole (non-empty) string is one token iff it is in the language
-        tq = [(i, s_) for (i, s_) in queries[:len(answers)] if i in with_parser]
-        for (i, s_), a in zip(tq, tans):
+        tq = []
+        for (i, s_) in queries[:len(answers)]:
+            if i in with_parser:
+                tq.append((i, s_, False))
+                if lead.get(i): tq.append((i, s_, True))
+        for (i, s_, second), a in zip(tq, tans):
+            if second:
+                # two-term parser: the string term wins only on its own spelling, every other member of the pattern's language is still one token
+                if not s_ or len(s_) > 60000 or s_ == lead[i]: continue
+                ast, t = items[i]; want = refs[i].full_match(s_); got = a[2] == '1'
+                C['regex_term_after_a_string_term_calls_observed'] += 1
+                if got != want:
+                    det = rr.Glushkov(ast).deterministic(); nested = nested_loop(ast)
+                    keys = [pattern_key(t)] + ([] if det else [CLASS_KEY]) + ([NESTED_KEY] if det and nested else [])
+                    out['viol'].append((keys, 'regex_term<%r> listed after string_term %r %s %s but the string %s in the pattern language' % (t, lead[i], 'accepts' if got else 'rejects', short(s_), 'is' if want else 'is not'),
+                                        {'pattern': t.decode('latin-1'), 'pattern_hex': t.hex(), 'witness_hex': s_.hex(), 'lead': lead[i].decode('latin-1')}))
+                continue
             if not s_ or len(s_) > 60000: continue
             ast, t = items[i]; want = refs[i].full_match(s_); got = a[2] == '1'
             C['regex_term_in_parser_calls_observed'] += 1
